@@ -9,6 +9,7 @@ package dot
 //@ pure func graphOK(dg *Graph) Bool = dg != nil && dg.ctorMap != nil && dg.groupMap != nil && dg.consumers != nil && dg.Failed != nil
 //@     && dg.Failed.ctors != nil && dg.Failed.groups != nil && (forall id CtorID :: id in dg.ctorMap ==> dg.ctorMap[id] != nil)
 //@     && (forall k nodeKey :: k in dg.groupMap ==> dg.groupMap[k] != nil && allocated(dg.groupMap[k]) && dg.groupMap[k].Results.arr <= $alloc)
+//@     && (forall i int :: 0 <= i && i < len(dg.Ctors) ==> dg.Ctors[i] != nil) && (forall i int :: 0 <= i && i < len(dg.Groups) ==> dg.Groups[i] != nil) && dg.Groups.arr <= $alloc
 //@     && (forall k nodeKey :: k in dg.consumers ==> dg.consumers[k].arr != dg.Ctors.arr && dg.consumers[k].arr <= $alloc && dg.consumers[k].arr > 0) && dg.Ctors.arr <= $alloc
 
 // every result drawn in a cluster exists and has its node; the lists of failed
@@ -80,6 +81,7 @@ package dot
 //@   ensures[C19:a-known-group-is-reused] old(k in dg.groupMap) ==> g == old(dg.groupMap[k]) && kept(Graph.Groups, map(Graph.groupMap)) && unchangedAll()
 //@   ensures[C19:a-new-group-carries-its-key-and-joins-the-list] !old(k in dg.groupMap) ==> fresh(g) && g.Type == k.t && g.Name == k.group && g.Results == nil
 //@        && len(dg.Groups) == old(len(dg.Groups)) + 1 && dg.Groups[len(dg.Groups) - 1] == g
+//@   ensures dg.Groups.arr == old(dg.Groups).arr || fresh(dg.Groups)
 //@   ensures[C19:other-groups-stay] forall k2 nodeKey :: k2 != k ==> (k2 in dg.groupMap) == old(k2 in dg.groupMap) && dg.groupMap[k2] == old(dg.groupMap[k2])
 //@   ensures forall x *Graph :: existed(x) && x != dg ==> x.Groups == old(x.Groups)
 
@@ -139,7 +141,7 @@ package dot
 //@   ensures[C19:every-edge-is-a-plain-dependency] forall j int :: 0 <= j && j < len(c.Params) ==> (exists i int :: 0 <= i && i < len(paramList) && c.Params[j] == old(paramList[i]) && old(paramList[i].Node.Group) == "")
 //@   loop range paramList #1: invariant[C19:plain-dependencies-so-far-are-edges] forall i int :: 0 <= i && i < $i && paramList[i].Node.Group == "" ==> (exists j int :: 0 <= j && j < len(params) && params[j] == paramList[i])
 //@   loop range paramList #1: invariant[C19:edges-so-far-are-plain-dependencies] forall j int :: 0 <= j && j < len(params) ==> (exists i int :: 0 <= i && i < $i && params[j] == paramList[i] && paramList[i].Node.Group == "")
-//@   loop range paramList #1: invariant kept(Param.Node, Node.Group, Node.Type)
+//@   loop range paramList #1: invariant[C19:nodes-kept-while-sorting] kept(Param.Node, Node.Group, Node.Type)
 //@   requires resultsOK(dg) && failedListsSeparate(dg) && groupListsSeparate(dg)
 //@   ensures[C19:adding-a-cluster-keeps-the-graph-well-formed] drawnOK(dg)
 //@   loop range paramList #1: invariant[C19:failure-lists-apart-while-sorting-dependencies] failedListsSeparate(dg)
@@ -154,8 +156,9 @@ package dot
 //@   loop range paramList #1: complete[C19:every-declared-dependency-is-sorted-into-an-edge]
 //@   loop range resultList #1: complete[C19:every-result-is-looked-at-for-its-group]
 //@   loop range paramList #2: complete[C19:every-dependency-is-recorded-with-its-consumer]
-//@   loop range paramList #1: invariant (len(resultList) == 0 || (forall k nodeKey :: k in dg.groupMap ==> dg.groupMap[k].Results.arr != resultList.arr))
-//@   loop range paramList #1: invariant graphOK(dg) && len(params) + len(groupParams) == $i && (cap(params) == 0 || fresh(params)) && (cap(groupParams) == 0 || fresh(groupParams)) && paramList.arr <= $alloc
+//@   loop range paramList #1: invariant[C19:member-lists-apart-from-the-result-list-while-sorting] (len(resultList) == 0 || (forall k nodeKey :: k in dg.groupMap ==> dg.groupMap[k].Results.arr != resultList.arr))
+//@   loop range paramList #1: invariant[C19:group-edges-are-kept-in-their-own-storage] (cap(groupParams) == 0 || groupParams.arr != dg.Groups.arr) && groupParams.arr <= $alloc
+//@   loop range paramList #1: invariant[C19:dependencies-sorted-so-far] graphOK(dg) && len(params) + len(groupParams) == $i && (cap(params) == 0 || fresh(params)) && (cap(groupParams) == 0 || fresh(groupParams)) && paramList.arr <= $alloc
 //@        && (forall j int :: 0 <= j && j < len(paramList) ==> paramList[j] == old(paramList[j]))
 //@   loop range resultList #1: invariant graphOK(dg)
 //@   loop range resultList #1: invariant kept(Result.Node, Node.Group, Node.Type)
@@ -164,31 +167,50 @@ package dot
 //@   loop range paramList #2: invariant[C19:earlier-clusters-stay-while-consumers-are-recorded] dg.Ctors == old(dg.Ctors) && (forall i int :: 0 <= i && i < len(dg.Ctors) ==> dg.Ctors[i] == old(dg.Ctors[i]))
 //@   loop range paramList #2: invariant graphOK(dg) && (forall j int :: 0 <= j && j < len(paramList) ==> paramList[j] == old(paramList[j]))
 
-// Pruning (not verified): removes the clusters and groups that did not fail.
-//@ func (dg *Graph) PruneSuccess() ()
+// Pruning: the clusters and groups that did not fail are removed. The helper
+// passes that drop dangling references (parameters, group members, group
+// edges of the remaining clusters) are assumed to replace only those lists
+// (each builds a new list; none writes into an existing one).
+//@ func (dg *Graph) pruneCtorParams(c, consumers) ()
 //@   trusted
+//@   modifies Ctor.Params
+//@   allocates plain
+//@ func (dg *Graph) pruneGroupResults(c, groups) ()
+//@   trusted
+//@   modifies Group.Results
+//@   allocates plain
+//@ func (dg *Graph) pruneCtorGroupParams(groups) ()
+//@   trusted
+//@   modifies Ctor.GroupParams
+//@   allocates plain
+
+//@ func (dg *Graph) pruneCtors(failed) ()
+//@   requires dg != nil && dg.ctorMap != nil && (forall i int :: 0 <= i && i < len(dg.Ctors) ==> dg.Ctors[i] != nil)
+//@   modifies Graph.Ctors, elems(*Ctor), map(Graph.ctorMap), Ctor.Params, elems(*Param), Group.Results, elems(*Result)
+//@   allocates plain
+//@   ensures[C19:only-failed-clusters-remain] forall i int :: 0 <= i && i < len(dg.Ctors) ==> dg.Ctors[i] != nil && dg.Ctors[i].ID in failed
+//@   ensures[C19:every-failed-cluster-remains] forall i int :: 0 <= i && i < old(len(dg.Ctors)) && old(dg.Ctors[i].ID in failed) ==> (exists j int :: 0 <= j && j < len(dg.Ctors) && dg.Ctors[j] == old(dg.Ctors[i]))
+//@   ensures[C19:no-cluster-is-invented] forall j int :: 0 <= j && j < len(dg.Ctors) ==> (exists i int :: 0 <= i && i < old(len(dg.Ctors)) && dg.Ctors[j] == old(dg.Ctors[i]))
+//@   loop range dg.Ctors #1: complete[C19:every-cluster-is-examined]
+//@   loop range dg.Ctors #1: invariant (cap(pruned) == 0 || fresh(pruned)) && dg.Ctors == old(dg.Ctors) && dg.ctorMap == old(dg.ctorMap) && kept(Ctor.ID)
+//@        && (forall i int :: 0 <= i && i < len(dg.Ctors) ==> dg.Ctors[i] == old(dg.Ctors[i]) && dg.Ctors[i] != nil)
+//@   loop range dg.Ctors #1: invariant[C19:kept-so-far-failed] forall j int :: 0 <= j && j < len(pruned) ==> pruned[j] != nil && pruned[j].ID in failed && (exists i int :: 0 <= i && i < $i && pruned[j] == dg.Ctors[i])
+//@   loop range dg.Ctors #1: invariant[C19:failed-so-far-kept] forall i int :: 0 <= i && i < $i && dg.Ctors[i].ID in failed ==> (exists j int :: 0 <= j && j < len(pruned) && pruned[j] == dg.Ctors[i])
+
+//@ func (dg *Graph) PruneSuccess() ()
 //@   requires graphOK(dg)
 //@   modifies Graph.Ctors, elems(*Ctor), Graph.Groups, elems(*Group), map(Graph.ctorMap), map(Graph.groupMap), Ctor.Params, Ctor.GroupParams, elems(*Param), Group.Results, elems(*Result)
-//@   allocates
-//@   ensures graphOK(dg)
+//@   allocates plain
+//@   ensures[C19:after-pruning-only-failed-clusters-are-drawn] forall i int :: 0 <= i && i < len(dg.Ctors) ==> dg.Ctors[i] != nil && dg.Ctors[i].ID in dg.Failed.ctors
+//@   site call (*dot.Graph).pruneCtors #1: assert[C19:clusters-pruned-by-the-failed-constructors] $recv == dg && $arg0 == dg.Failed.ctors
+//@   site call (*dot.Graph).pruneGroups #1: assert[C19:groups-pruned-by-the-failed-groups] $recv == dg && $arg0 == dg.Failed.groups
 
-
-// Text of a node, of its attributes, of a colour (not verified: string
-// building with fmt; they write nothing and need their node)
-//@ func (p *Param) String() (s)
-//@   trusted
-//@   requires[C14:param-text-needs-its-node] p != nil && p.Node != nil
-//@ func (r *Result) String() (s)
-//@   trusted
-//@   requires[C14:result-text-needs-its-node] r != nil && r.Node != nil
-//@ func (r *Result) Attributes() (s)
-//@   trusted
-//@   requires[C14:result-attributes-need-the-node] r != nil && r.Node != nil
-//@ func (g *Group) String() (s)
-//@   trusted
-//@   requires[C14:group-text-needs-the-group] g != nil
-//@ func (g *Group) Attributes() (s)
-//@   trusted
-//@   requires[C14:group-attributes-need-the-group] g != nil
-//@ func (s ErrorType) Color() (c)
-//@   trusted
+//@ func (dg *Graph) pruneGroups(failed) ()
+//@   requires dg != nil && dg.groupMap != nil && (forall i int :: 0 <= i && i < len(dg.Groups) ==> dg.Groups[i] != nil)
+//@   modifies Graph.Groups, elems(*Group), map(Graph.groupMap), Ctor.GroupParams
+//@   allocates plain
+//@   ensures[C19:only-failed-groups-remain] forall i int :: 0 <= i && i < len(dg.Groups) ==> dg.Groups[i] != nil && mk(nodeKey, dg.Groups[i].Type, "", dg.Groups[i].Name) in failed
+//@   loop range dg.Groups #1: complete[C19:every-group-is-examined]
+//@   loop range dg.Groups #1: invariant (cap(pruned) == 0 || fresh(pruned)) && dg.Groups == old(dg.Groups) && kept(Group.Type, Group.Name)
+//@        && (forall i int :: 0 <= i && i < len(dg.Groups) ==> dg.Groups[i] == old(dg.Groups[i]) && dg.Groups[i] != nil)
+//@   loop range dg.Groups #1: invariant[C19:kept-groups-so-far-failed] forall j int :: 0 <= j && j < len(pruned) ==> pruned[j] != nil && mk(nodeKey, pruned[j].Type, "", pruned[j].Name) in failed
